@@ -163,14 +163,18 @@ class RowParallelLinear(nn.Module):
 
 
 # ------------------------------------------------------------------ models
-SIZES = {'gpt2l': (4, 6, 2)}   # H -> H2 (column) -> H3 (row)
+SIZES = {'gpt2l': (4, 6, 2),       # H -> H2 (column) -> H3 (row)
+         'gpt3l': (4, 6, 2, 6)}    # ... -> H4 (column, output sharded)
 
 
 def full_model(name, bias, dtype=torch.float32, seed=0):
     """The unsharded twin: Linear(H,H2) -> Tanh -> Linear(H2,H3)."""
-    h, h2, h3 = SIZES[name]
-    m = nn.Sequential(nn.Linear(h, h2, bias=bias), nn.Tanh(),
-                      nn.Linear(h2, h3, bias=bias)).to(dtype)
+    h, h2, h3 = SIZES[name][:3]
+    mods = [nn.Linear(h, h2, bias=bias), nn.Tanh(),
+            nn.Linear(h2, h3, bias=bias)]
+    if name == 'gpt3l':
+        mods += [nn.Tanh(), nn.Linear(h3, SIZES[name][3], bias=bias)]
+    m = nn.Sequential(*mods).to(dtype)
     with torch.no_grad():
         for i, p in enumerate(m.parameters()):
             p.copy_((R.lattice(tuple(p.shape), 10 + i, seed=seed) / 2
@@ -180,7 +184,7 @@ def full_model(name, bias, dtype=torch.float32, seed=0):
 
 def shard_model(name, bias, mp, mp_rank, group, dtype=torch.float32, seed=0):
     full = full_model(name, bias, dtype, seed)
-    h, h2, h3 = SIZES[name]
+    h, h2, h3 = SIZES[name][:3]
     assert h2 % mp == 0
     s = h2 // mp
     col = ColumnParallelLinear(h, s, bias, group)
@@ -191,7 +195,18 @@ def shard_model(name, bias, mp, mp_rank, group, dtype=torch.float32, seed=0):
         if bias:
             col.bias.copy_(full[0].bias[mp_rank * s:(mp_rank + 1) * s])
             row.bias.copy_(full[2].bias)
-    return nn.Sequential(col, nn.Tanh(), row).to(dtype)
+    mods = [col, nn.Tanh(), row]
+    if name == 'gpt3l':
+        h4 = SIZES[name][3]
+        assert h4 % mp == 0
+        s4 = h4 // mp
+        col2 = ColumnParallelLinear(h3, s4, bias, group)
+        with torch.no_grad():
+            col2.weight.copy_(full[4].weight[mp_rank * s4:(mp_rank + 1) * s4])
+            if bias:
+                col2.bias.copy_(full[4].bias[mp_rank * s4:(mp_rank + 1) * s4])
+        mods += [nn.Tanh(), col2]
+    return nn.Sequential(*mods).to(dtype)
 
 
 def register_ref_models():
@@ -202,13 +217,14 @@ def register_ref_models():
     orig_build, orig_shape = R.build_model, R.input_shape
 
     def build_model(name, dtype=torch.float32, seed=0):
-        if name.startswith('gpt2l'):
-            return full_model('gpt2l', not name.endswith('-nb'), dtype, seed)
+        if name.startswith('gpt'):
+            return full_model(name[:5], not name.endswith('-nb'), dtype,
+                              seed)
         return orig_build(name, dtype, seed)
 
     def input_shape(name, batch):
-        if name.startswith('gpt2l'):
-            return (batch, SIZES['gpt2l'][0])
+        if name.startswith('gpt'):
+            return (batch, SIZES[name[:5]][0])
         return orig_shape(name, batch)
 
     R.build_model, R.input_shape = build_model, input_shape
